@@ -32,6 +32,10 @@ CLAIMED = {
   "text": "Bounded symbolic model checking of the real AccountDB journal: for every mutator (15 kinds x 3 accounts x slots/amounts, symbolic value byte), one and two levels of Snapshot/Revert, from a committed state reopened cold and optionally dirtied, all observers answer as at the snapshot and the state root equals that of a twin on which the reverted operations never ran.",
   "note": "Trusted: gosym and its models, z3. Four instances of one genuine defect are listed as known findings (Empty() not restored after reverting a storage write on an account without cached storage). Histories of at most three mutators.",
  },
+ "C19": {
+  "text": "Bounded symbolic model checking of the real groupChain (AddGroup/save/remove/lookups and the restart loading sequence) over an in-memory store: for every history of up to 3 (thorough 5) add / bad-add / duplicate / remove-last / restart operations the last group is linked to genesis, Count equals the list length, the height index returns exactly the listed groups and nothing at or above the count, and every group is retrievable by id.",
+  "note": "Trusted: gosym and its models (encoding/json by contract), z3. Mid-operation crash points are outside (the property quantifies restarts after operations).",
+ },
 }
 PENDING = "check not built yet in this session (planned, see DESIGN.md section 5)"
 NA = {
